@@ -321,3 +321,8 @@ b("C10-b9", "C10", GC_PY, "    for sha in _other_worktree_roots(refs_container):
 b("C10-b10", "C10", GC_PY, "    git_dirs = [common_dir]\n", "    git_dirs = []\n", "R10.13")
 b("C10-b11", "C10", GC_PY, "    for sha in _other_worktree_roots(refs_container):\n        if sha and sha not in reachable:\n            pending.append(sha)\n            reachable.add(sha)\n",
   "    for sha in _other_worktree_roots(refs_container):\n        if sha and sha not in reachable:\n            reachable.discard(sha)\n", "R10.13")
+CLIENT = "dulwich/client.py"
+b("C05-b9", "C05", CLIENT, "                for update in proto.read_pkt_seq():\n                    raise GitProtocolError(\n                        f\"unexpected shallow update {update!r} without deepening\"\n                    )\n                pkt = proto.read_pkt_line()\n                continue\n", "                pass\n", "R05.8")
+b("C05-b10", "C05", CLIENT, "            if parts[0] == b\"shallow-info\":\n", "            if parts[0] == b\"shallow-update\":\n", "R05.8")
+n("C05-n9", "C05", CLIENT, "                for update in proto.read_pkt_seq():\n                    raise GitProtocolError(\n                        f\"unexpected shallow update {update!r} without deepening\"\n                    )\n",
+  "                updates = list(proto.read_pkt_seq())\n                if updates:\n                    raise GitProtocolError(\n                        f\"unexpected shallow update {updates[0]!r} without deepening\"\n                    )\n")
